@@ -49,6 +49,9 @@ func (s *Spec) String() string {
 	if s.S != "" {
 		r += fmt.Sprintf("(%q)", s.S)
 	}
+	if s.K == "ptype" && s.B {
+		r += fmt.Sprintf("{%d..%d}", s.I, s.J)
+	}
 	if len(s.E) > 0 {
 		r += "["
 		for i, e := range s.E {
@@ -201,8 +204,108 @@ func (b *builder) build1(s *Spec) px.Value {
 			args[i] = b.build(e)
 		}
 		return px.New(b.ctx, b.env.objTypes[s.S], args...)
+	case "ptype":
+		return b.buildPType(s)
 	}
 	panic("bad spec kind " + s.K)
+}
+
+// typeAt builds child i of a ptype spec as a type; {k: none} (or a missing child) is the nil type
+func (b *builder) typeAt(s *Spec, i int) px.Type {
+	if i >= len(s.E) || s.E[i].K == "none" {
+		return nil
+	}
+	return b.build(s.E[i]).(px.Type)
+}
+
+// buildPType builds a parameterized type with the Go constructors of package types (not by parsing a
+// type expression), so that its parameters can be the user types of either scenario: a type with an
+// object or alias type among its parameters has no serialization string and travels as an instance
+// of its meta type, attribute by attribute (serializer.go:327-353).
+// S = constructor; E = the parameter types ({k: none} = nil); B: a size range [I, J] is given.
+func (b *builder) buildPType(s *Spec) px.Value {
+	var size *types.IntegerType
+	if s.B {
+		size = types.NewIntegerType(s.I, s.J)
+	}
+	all := func(from int) []px.Type {
+		ts := []px.Type{}
+		for i := from; i < len(s.E); i++ {
+			ts = append(ts, b.typeAt(s, i))
+		}
+		return ts
+	}
+	switch s.S {
+	case "Array":
+		return types.NewArrayType(b.typeAt(s, 0), size)
+	case "Hash":
+		return types.NewHashType(b.typeAt(s, 0), b.typeAt(s, 1), size)
+	case "Tuple":
+		return types.NewTupleType(all(0), size)
+	case "Callable": // E = [parameter tuple, return type, block type]
+		return types.NewCallableType(b.typeAt(s, 0), b.typeAt(s, 1), b.typeAt(s, 2))
+	case "Variant":
+		return types.NewVariantType(all(0)...)
+	case "Optional":
+		return types.NewOptionalType(b.typeAt(s, 0))
+	case "NotUndef":
+		return types.NewNotUndefType(b.typeAt(s, 0))
+	case "Type":
+		return types.NewTypeType(b.typeAt(s, 0))
+	case "Iterable":
+		return types.NewIterableType(b.typeAt(s, 0))
+	case "Iterator":
+		return types.NewIteratorType(b.typeAt(s, 0))
+	case "Sensitive":
+		return types.NewSensitiveType(b.typeAt(s, 0))
+	case "Like":
+		return types.NewLikeType(b.typeAt(s, 0), "x")
+	case "Init": // E = [type, init argument...]
+		args := make([]px.Value, 0, len(s.E))
+		for i := 1; i < len(s.E); i++ {
+			args = append(args, b.build(s.E[i]))
+		}
+		return types.NewInitType(b.typeAt(s, 0), types.WrapValues(args))
+	case "Struct": // E = member types; member i is named a, b, ...; bit i of I: the key is optional
+		es := make([]*types.StructElement, len(s.E))
+		for i := range s.E {
+			var key px.Value = types.WrapString(string(rune('a' + i)))
+			if s.I&(1<<uint(i)) != 0 {
+				key = types.NewOptionalType(key.PType())
+			}
+			es[i] = types.NewStructElement(key, b.typeAt(s, i))
+		}
+		return types.NewStructType(es)
+	}
+	panic("bad ptype constructor " + s.S)
+}
+
+// needsLoader: an Init type asks the loader for the constructor of its type as soon as it is used
+// (types/inittype.go:210-219), so it exists over registered types only
+func (s *Spec) needsLoader() bool {
+	if s.K == "ptype" && s.S == "Init" {
+		return true
+	}
+	for _, e := range s.E {
+		if e.needsLoader() {
+			return true
+		}
+	}
+	return false
+}
+
+// structOverUserType: does the spec hold a Struct type with a user type among its members (at any
+// depth)?  Input class of the open finding struct-type-attribute-route.
+func (s *Spec) structOverUserType() bool {
+	if s.K == "ptype" && s.S == "Struct" && s.hasUserTypes() {
+		return true
+	}
+	for _, e := range s.E {
+		if e.structOverUserType() {
+			return true
+		}
+	}
+	return false
 }
 
 // hasUserTypes tells whether the spec needs the type catalogue (then both scenarios are run)
